@@ -63,6 +63,10 @@ def include_programs(rng, n):
             top += [pp.cmt(" \u00a9 \u00e9%d \u65e5\u672c " % i, block=rng.random() < 0.5), pp.nl()]
             a = [pp.cmt(" \u00fc ", block=True), pp.nl()] + a
         top += [pp.inc("a.svh", form=rng.choice([0, 1])), pp.nl(), t(), pp.use("MA", [[pp.bt("lit", "arg%d" % i)]]), t(), pp.nl()]
+        if rng.random() < 0.5:
+            # the same macro text written a second time in another file: the definition IN FORCE is the later one, and
+            # the bytes of its expansions come from there (round-3 seeded change: identical redefinition skipped)
+            top += [pp.define("MA", [("p", None)], [pp.bt("lit", "ma"), pp.bt("id", "p")]), pp.nl(), t(), pp.use("MA", [[pp.bt("lit", "again%d" % i)]]), pp.nl()]
         if rng.random() < 0.7:
             top += [pp.use("E"), t(), pp.nl()]          # empty expansion followed by text
         if rng.random() < 0.5:
